@@ -141,10 +141,7 @@ func (r *ClusterReconciler) reconcileBrokerDeployment(ctx context.Context, clust
 	}}
 
 	_, err := controllerutil.CreateOrUpdate(ctx, r.Client, sts, func() error {
-		replicas := int32(3)
-		if cluster.Spec.Brokers.Replicas != nil {
-			replicas = *cluster.Spec.Brokers.Replicas
-		}
+		replicas := brokerReplicas(cluster)
 		labels := map[string]string{
 			"app":     "kafscale-broker",
 			"cluster": cluster.Name,
@@ -200,10 +197,7 @@ func (r *ClusterReconciler) deleteLegacyBrokerDeployment(ctx context.Context, cl
 func (r *ClusterReconciler) brokerContainer(cluster *kafscalev1alpha1.KafscaleCluster, endpoints []string) corev1.Container {
 	image := brokerImage
 	pullPolicy := parsePullPolicy(brokerImagePullPolicy)
-	replicas := int32(3)
-	if cluster.Spec.Brokers.Replicas != nil {
-		replicas = *cluster.Spec.Brokers.Replicas
-	}
+	replicas := brokerReplicas(cluster)
 	brokerHost := strings.TrimSpace(cluster.Spec.Brokers.AdvertisedHost)
 	if replicas > 1 {
 		brokerHost = ""
@@ -647,4 +641,14 @@ func getEnv(key, fallback string) string {
 		return val
 	}
 	return fallback
+}
+
+// brokerReplicas is the one place that resolves the broker replica count: the
+// spec value, or 3 when it is unset or not positive (the CRD's default and
+// minimum). The StatefulSet and the published metadata must agree on it.
+func brokerReplicas(cluster *kafscalev1alpha1.KafscaleCluster) int32 {
+	if r := cluster.Spec.Brokers.Replicas; r != nil && *r > 0 {
+		return *r
+	}
+	return 3
 }
